@@ -35,6 +35,10 @@ GROUPINGS = {
     'upstream4': ([L4A, L4B], ['g', 0]),
     'two_only': ([LP, LV], ['g', 0]),
     'replicated': ([LP, LV, {'serial': [0, 1, 2]}], ['g', 0, 'one']),
+    # replicated layout with the SAME dimension order as the 1-D layout it is gathered from (a gather that could be mistaken for a plain copy)
+    'replicated_same_order': ([LP, LV, {'everything': [0, 2, 1]}], ['g', 0, 'one']),
+    'replicated_none_same_order': ([LP, LV, {'everything': [0, 2, 1]}], ['g', 0, 'none']),          # nprocs = []: not distributed at all
+    'replicated_none': ([LP, LV, {'serial': [0, 1, 2]}], ['g', 0, 'none']),
 }
 
 
@@ -79,7 +83,7 @@ def run_case(case):
     MPI = simmpi.install()
     groups, spec = GROUPINGS[case['grouping']]
     p1, p2 = case['p']
-    nprocs = [[p1, p2] if sp == 'g' else (p1 if sp == 0 else (p2 if sp == 1 else 1)) for sp in spec]
+    nprocs = [[p1, p2] if sp == 'g' else (p1 if sp == 0 else (p2 if sp == 1 else ([] if sp == 'none' else 1))) for sp in spec]
     shape = case['shape']
     size = p1 * p2
     dtype = lay.DTYPES[case['dtype']]
